@@ -1,3 +1,23 @@
 //! Safe-Rust verification hooks for this module (accessors/wrappers only; no logic).
 #![allow(missing_docs, unused_imports, dead_code)]
 use super::*;
+
+// --- C40 (ntpd_h): `deserialize_sample`, `SockSample` and `SampleError` are private.
+/// Accepted sample as raw fields `(offset, pulse, leap, magic)`; rejected sample as a small
+/// discriminant of `SampleError` (0 IO, 1 slice, 2 size, 3 magic, 4 pulse, 255 any variant added later).
+pub fn deserialize_sample_raw(
+    result: Result<usize, std::io::Error>,
+    buf: [u8; SOCK_SAMPLE_SIZE],
+) -> Result<(f64, i32, i32, i32), u8> {
+    match deserialize_sample(result, buf) {
+        Ok(s) => Ok((s.offset, s.pulse, s.leap, s.magic)),
+        Err(SampleError::IOError(_)) => Err(0),
+        Err(SampleError::SliceError(_)) => Err(1),
+        Err(SampleError::WrongSize(_)) => Err(2),
+        Err(SampleError::WrongMagic(_)) => Err(3),
+        Err(SampleError::WrongPulse(_)) => Err(4),
+        #[allow(unreachable_patterns)]
+        Err(_) => Err(255),
+    }
+}
+pub const SAMPLE_SIZE: usize = SOCK_SAMPLE_SIZE;
